@@ -38,8 +38,52 @@ def is_old(t, attr):
     return isinstance(t, tuple) and t and t[0] in ("attr0", "attr@") and t[1] == attr
 
 
+def concat_dedup_kind(res, t, new, attr):
+    """``c = pd.concat([A, B]); c[~c.index.duplicated(keep=K)]`` (optionally ``.sort_index()`` / ``.loc``):
+    the first operand wins for keep='first', the last for keep='last'.  'ok' | 'swapped' | None."""
+    e = res.ret_event(t)
+    while e is not None and e.kind == "call" and e.target.kind == "attr" and e.name in ("sort_index", "copy") and not e.args:
+        t = e.recv
+        e = res.ret_event(t)
+    if not (isinstance(t, tuple) and t[0] == "item"):
+        return None
+    frame, mask = t[1], t[2]
+    if isinstance(frame, tuple) and frame[0] == "getattr" and frame[2] == "loc":
+        frame = frame[1]
+    if not (isinstance(mask, tuple) and mask[:2] == ("unop", "Invert")):
+        return None
+    d = res.ret_event(mask[2])
+    c = res.ret_event(frame)
+    if d is None or c is None or d.name != "duplicated" or d.target.kind != "attr" or d.recv != ("getattr", frame, "index"):
+        return None
+    if not (c.target.kind == "ext" and c.target.ext == "pandas.concat"):
+        return None
+    objs = c.arg(0, "objs")
+    if not (isinstance(objs, tuple) and objs[0] in ("list", "tuple") and len(objs[1]) == 2):
+        return None
+    ax = c.arg(1, "axis")
+    if ax is not None and ax not in (("const", 0), ("const", "index")):
+        return None
+    keep = d.arg(0, "keep")
+    keep = "first" if keep is None else const(keep, "?")
+    if keep not in ("first", "last"):
+        return None
+    a, b = objs[1]
+    winner = a if keep == "first" else b
+    loser = b if keep == "first" else a
+    if winner == new and is_old(loser, attr):
+        return "ok"
+    if is_old(winner, attr) and loser == new:
+        return "swapped"
+    return None
+
+
 def merge_kind(res, t, new, attr):
-    """'ok' for NEW.combine_first(OLD), 'swapped' for OLD.combine_first(NEW), None otherwise."""
+    """'ok' for NEW.combine_first(OLD) (or the concat + de-duplication form in which NEW wins), 'swapped' when OLD wins,
+    None otherwise."""
+    ck = concat_dedup_kind(res, t, new, attr)
+    if ck is not None:
+        return ck
     e = res.ret_event(t)
     if e is None or e.kind != "call" or e.name != "combine_first" or e.target.kind != "attr":
         return None
@@ -53,12 +97,14 @@ def merge_kind(res, t, new, attr):
     return None
 
 
-def merged_value(res, t, new, attr):
-    """``t`` is what ``self.<attr>`` holds after the merge: the merge result, or (empty batch) the old value."""
+def merged_value(res, t, new, attr, any_order=False):
+    """``t`` is what ``self.<attr>`` holds after the merge: the merge result, or (empty batch) the old value.
+    ``any_order``: also accept a merge in which the old values win (the operand order is R1's obligation)."""
     a = alts(t)
+    good = ("ok", "swapped") if any_order else ("ok",)
     kinds = [merge_kind(res, x, new, attr) for x in a]
-    has = any(k == "ok" for k in kinds)
-    rest_ok = all(k == "ok" or is_old(x, attr) for x, k in zip(a, kinds))
+    has = any(k in good for k in kinds)
+    rest_ok = all(k in good or is_old(x, attr) for x, k in zip(a, kinds))
     return has and rest_ok
 
 
@@ -114,9 +160,11 @@ def r1(ctx, repo):
         for s in ss:
             k = merge_kind(res, s.value, new, attr)
             if k == "ok":
-                ctx.ok("R1", key, "self.%s = NEW.combine_first(OLD): values of the new batch win on overlap" % attr, loc_of(s))
+                ctx.ok("R1", key, "self.%s = merge(NEW, OLD) in which values of the new batch win on overlap" % attr, loc_of(s))
             elif k == "swapped":
-                ctx.violation("R1", key, "self.%s = OLD.combine_first(NEW): on overlapping time points the OLD values win" % attr, loc_of(s),
+                ctx.violation("R1", key, "self.%s is merged so that on overlapping time points the OLD values win (%s)"
+                              % (attr, "OLD.combine_first(NEW)" if concat_dedup_kind(res, s.value, new, attr) is None else
+                                 "concat + index.duplicated keeps the remembered entry"), loc_of(s),
                               witness={"history": "fit(y1); update(y2) with y2 overlapping the end of y1 with revised values"})
             elif s.value == new or strip_views(s.value) == P(pname):
                 ctx.violation("R1", key, "self.%s is replaced by the new batch: earlier observations are forgotten" % attr, loc_of(s))
@@ -234,7 +282,7 @@ def r2(ctx, repo):
     for p, attr in (("y", "_y"), ("X", "_X")):
         got = b.get(p)
         key = C + ":refit-data:" + p
-        if got is not None and merged_value(res, got, P(p), attr):
+        if got is not None and merged_value(res, got, P(p), attr, any_order=True):
             ctx.ok("R2", key, "refit on self.%s as merged (all remembered data)" % attr, loc_of(f))
         elif got == P(p) or proper_part(got, P(p)):
             ctx.violation("R2", key, "the refit uses only the batch passed to update, not all remembered data", loc_of(f),
@@ -431,6 +479,12 @@ def r3(ctx, repo):
         ctx.violation("R3", C + ":window", "each step updates with the *test* window of the split (second component)", loc_of(u))
     elif got_y == P("y"):
         ctx.violation("R3", C + ":window", "each step updates with the whole series instead of the new window", loc_of(u))
+    elif isinstance(got_y, tuple) and got_y[0] == "item" and got_y[1] == ("getattr", P("y"), "iloc") and isinstance(got_y[2], tuple) \
+            and got_y[2][0] == "item" and got_y[2][1] == ("item", elem, ("const", 0)) \
+            and (is_const(got_y[2][2]) or (got_y[2][2][:1] == ("slice",) and any(is_const(b) and b[1] not in (None, 0) for b in got_y[2][2][1:3]))):
+        ctx.violation("R3", C + ":window", "each step updates with only a part of the split's train window (%s): observations of the window that "
+                      "were not seen before are never merged (step_length > 1, initial window, user-supplied cv)" % res.fmt(got_y[2]), loc_of(u),
+                      witness={"history": "update_predict(y, cv=SlidingWindowSplitter(step_length=3, ...))"})
     else:
         ctx.undecided("R3", C + ":window", "update data is %s" % res.fmt(got_y), loc_of(u))
     fhe = res.ret_event(u.bound.get("fh"))
